@@ -258,7 +258,9 @@ func (s Search) From(fn *ssa.Function, from ssa.Instruction) (ssa.Instruction, [
 			in := it.b.Instrs[i]
 			if s.Target != nil && s.Target(in) {
 				var path []int
-				for b := it.b; b != nil; b = parent[b] {
+				onPath := map[*ssa.BasicBlock]bool{}
+				for b := it.b; b != nil && !onPath[b]; b = parent[b] {
+					onPath[b] = true
 					path = append([]int{b.Index}, path...)
 					if first {
 						break
